@@ -2,9 +2,9 @@ CONSTANTS
   Enabled = {"R1", "R2", "R2x", "S1", "S1x", "S2", "M1", "S3"}
   MaxBlocks = 3
   MaxBulk = 1
-  MaxSteps = 6
+  MaxSteps = 4
 INIT Init
 NEXT Next
 VIEW View
-INVARIANTS TypeOK PoolConsistent MatchesChainAndPool ConflictedNotCounted AvailIsTrusted
+INVARIANTS TypeOK ProjOK PoolConsistent MatchesChainAndPool ConflictedNotCounted AvailIsTrusted
 CHECK_DEADLOCK FALSE
